@@ -223,6 +223,49 @@ def spellRemote (user : Option Str) (pw : Option Str) (host : Str) : Str :=
     | none => u ++ '@' :: host
     | some p => u ++ ':' :: (p ++ '@' :: host)
 
+/-! ## `[username[:password]@]host[:port]`: every kind of host -/
+
+/-- characters of a host name or ssh alias -/
+def nameChar (c : Char) : Bool := isAsciiAlnum c || c = '-' || c = '.' || c = '_'
+
+/-- the host of a remote specification -/
+inductive HostSpec
+  | name (s : Str)                       -- a host name, an ssh alias (anything but an address literal)
+  | v4 (a : Nat)                         -- a dotted quad
+  | v6 (sp : Spell6) (brackets : Bool)   -- an IPv6 literal, bare or in brackets
+deriving Repr
+
+def HostSpec.text : HostSpec → Str
+  | .name s => s
+  | .v4 a => dotted a
+  | .v6 sp b => if b then '[' :: (sp.text ++ [']']) else sp.text
+
+def portSuffix : Option Nat → Str
+  | none => []
+  | some p => ':' :: render 10 p
+
+/-- `[user[:password]@]host[:port]` -/
+def renderRemote (user pw : Option Str) (h : HostSpec) (port : Option Nat) : Str :=
+  spellRemote user pw (h.text ++ portSuffix port)
+
+/-- which (host, port) pairs have an unambiguous text: a port needs a host that cannot swallow
+it — an IPv6 literal must then be in brackets (`2001::1:22` *is* an address) — and a name that
+is written with a port must not read as a dotted quad once lower-cased (it would be
+re-canonicalised as an address) -/
+def HostSpec.Valid (port : Option Nat) : HostSpec → Prop
+  | .name s => s ≠ [] ∧ (∀ c ∈ s, nameChar c = true) ∧
+      (port.isSome = true → ipv4Address (s.map asciiLower) = none)
+  | .v4 a => a < 2 ^ 32
+  | .v6 sp b => sp.Valid ∧ (port.isSome = true → b = true)
+
+/-- the host as `parse_hostport` reports it: an address literal in the canonical text of
+Python's `ipaddress` module, a name unchanged — except that `urlparse` lower-cases it when a
+port is present -/
+def HostSpec.canon (port : Option Nat) : HostSpec → Str
+  | .name s => if port.isSome then s.map asciiLower else s
+  | .v4 a => dotted a
+  | .v6 sp _ => compressV6 sp.denotes
+
 /-! ## environment and command line -/
 
 /-- "If a given option is defined in both the environment variable and command line, the
